@@ -11,13 +11,13 @@ import (
 )
 
 type c07IntegArg struct {
-	Case    string `json:"case"`
-	Kind    string `json:"kind"`
-	Side    string `json:"side"`
-	Xid     string `json:"xid"`
-	Key     string `json:"key"`
-	RealTx  bool   `json:"real_tx"`
-	Name    string `json:"name"`
+	Case    string            `json:"case"`
+	Kind    string            `json:"kind"`
+	Side    string            `json:"side"`
+	Xid     string            `json:"xid"`
+	Key     string            `json:"key"`
+	RealTx  bool              `json:"real_tx"`
+	Name    string            `json:"name"`
 	Outcome string            `json:"callee_outcome"`
 	Stale   map[string]string `json:"stale,omitempty"`
 }
